@@ -236,6 +236,9 @@ def history_one(args):
                         out['problems'].append(('C08/close-never-returned', 'close() did not return in %d of %d threads' % (n - len(per_thread), n), k))
             except amqpstorm.AMQPError as why:
                 res = 'raised %s' % type(why).__name__
+                if kind == 'chan-reopen':
+                    out['problems'].append(('C08/reopen-raises-stale-error', 'Channel.open() on the closed channel raised %r although the broker answers (%s)' % (
+                        why, getattr(why, 'error_code', None)), k))
             if kind != 'to-timer':
                 sleep(0.001)                  # let whatever is runnable finish
             s = snap()
